@@ -53,8 +53,55 @@ func TestGen(t *testing.T) {
 	}
 }
 
+// runReplicas executes the same history on independent application instances and records, per block, what each
+// replica exposed to consensus (C18). The histories come from the same generators as for the other properties.
+func runReplicas(t *testing.T, seed int64, steps int) *World {
+	const R = 3
+	var obs [R][]ObsRec
+	for r := 0; r < R; r++ {
+		recordingDefault = false
+		obsDefault = true
+		var w *World
+		if seed%3 == 0 {
+			w = scenarios["scripted"](t, seed/3)
+		} else {
+			w = RunRandom(t, seed, "default", steps).W
+		}
+		obs[r] = w.Obs
+	}
+	recordingDefault, obsDefault = true, false
+	out := &World{}
+	out.rec = &Recorder{w: out, on: true}
+	out.rec.events = append(out.rec.events, map[string]any{"i": 1, "chain": "p", "a": "Init", "args": map[string]any{"replicas": R, "seed": seed}, "res": map[string]any{}, "s": minimalProviderState()})
+	n := len(obs[0])
+	for r := 1; r < R; r++ {
+		if len(obs[r]) < n {
+			n = len(obs[r])
+		}
+	}
+	for i := 0; i < n; i++ {
+		args := map[string]any{"chain": obs[0][i].Chain, "h": obs[0][i].H}
+		for r := 0; r < R; r++ {
+			args[fmt.Sprintf("r%d", r+1)] = obs[r][i].Chain + "/" + fmt.Sprint(obs[r][i].H) + "/" + obs[r][i].App + "/" + obs[r][i].Res
+		}
+		out.rec.emit("d", "Obs", args, nil, nil)
+	}
+	lens := map[string]any{}
+	for r := 0; r < R; r++ {
+		lens[fmt.Sprintf("r%d", r+1)] = len(obs[r])
+	}
+	out.rec.emit("d", "ObsLen", lens, nil, nil)
+	return out
+}
+
+func minimalProviderState() map[string]any {
+	return map[string]any{"vscId": 0, "lps": map[string]any{}, "meter": 0, "vals": map[string]any{}, "cons": map[string]any{}}
+}
+
 func runCorpus(t *testing.T, corpus string, seed int64, steps int) *World {
 	switch corpus {
+	case "replicas":
+		return runReplicas(t, seed, steps)
 	case "random":
 		return RunRandom(t, seed, "default", steps).W
 	}
